@@ -187,6 +187,12 @@ func DecodeClaimsFromCBOR(buf []byte) (IClaims, error) {
 		return nil, err
 	}
 
+	// CBOR null/undefined decode into a struct without error; they are not
+	// a claims-set.
+	if !isCBORMap(buf) {
+		return nil, errors.New("CBOR claims must be a map")
+	}
+
 	entry, ok := profilesRegister[selector.Profile]
 	if !ok {
 		return nil, fmt.Errorf("unknown profile: %q", selector.Profile)
@@ -199,6 +205,32 @@ func DecodeClaimsFromCBOR(buf []byte) (IClaims, error) {
 	}
 
 	return claims, nil
+}
+
+// isCBORMap reports whether buf starts with a (possibly tagged) CBOR map.
+func isCBORMap(buf []byte) bool {
+	for len(buf) > 0 && buf[0]>>5 == 6 { // skip tag heads
+		n := 1
+
+		switch buf[0] & 0x1f {
+		case 24:
+			n = 2
+		case 25:
+			n = 3
+		case 26:
+			n = 5
+		case 27:
+			n = 9
+		}
+
+		if len(buf) < n {
+			return false
+		}
+
+		buf = buf[n:]
+	}
+
+	return len(buf) > 0 && buf[0]>>5 == 5
 }
 
 // Deprecated: use DecodeAndValidateClaimsFromJSON instead.
